@@ -223,6 +223,22 @@ pub const STMT_CORE: &[&str] = &[
     "return a, (f())",
     "return (a)",
     "return ((f()))",
+    // statements that carry their own semicolon
+    "local a = 1;",
+    "a = 1;",
+    "f();",
+    "return;",
+    "return a;",
+    "return a, b;",
+    "do return a; end",
+    "while a do break; end",
+    "do f(); g(); end",
+    "local a = f(); (g)()",
+    "a = b; (g)()",
+    "repeat until a; (g)()",
+    "do end;",
+    "if a then f(); end",
+    "function f() return a; end",
 ];
 
 pub const STMT_L52: &[&str] = &["goto l", "::l::", "do goto l ::l:: end", "local s = \"a\\z\n   b\"", "local s = \"\\x41\""];
@@ -259,6 +275,8 @@ pub const STMT_LUAU: &[&str] = &[
     "a.b.c ..= f()",
     "while a do continue end",
     "while a do if b then continue end end",
+    "while a do continue; end",
+    "x += 1; (g)()",
     "local x = if a then b else c",
     "local x = if a then b elseif c then d else e",
     "local x = (if a then b else c) + 1",
@@ -898,7 +916,7 @@ pub fn f_trunc() -> Vec<Case> {
 // F-TRIVIA: a comment in every token gap
 // ------------------------------------------------------------------------------------------------------------
 
-pub const COMMENT_KINDS: usize = 5;
+pub const COMMENT_KINDS: usize = 7;
 
 fn comment_text(kind: usize, id: usize) -> (String, bool) {
     // (text, needs_line_break_after)
@@ -907,7 +925,10 @@ fn comment_text(kind: usize, id: usize) -> (String, bool) {
         1 => (format!("--[[c{}x]]", id), false),
         2 => (format!("--[=[c{}x]=]", id), false),
         3 => (format!("--[[c{}x\nd]]", id), false),
-        _ => (format!("-- c{}x \n", id), true),
+        4 => (format!("-- c{}x \n", id), true),
+        // kinds 5 and 6: the comment sits on a line of its own (so it is LEADING trivia of the next token)
+        5 => (format!("\n--c{}x", id), true),
+        _ => (format!("\n--[[c{}x]]\n", id), false),
     }
 }
 
@@ -1039,6 +1060,7 @@ pub fn f_seq(n: usize, all_encl: bool) -> Vec<Case> {
     let encls: Vec<&(&str, &str, bool)> = if all_encl { SEQ_ENCL.iter().collect() } else { SEQ_ENCL.iter().take(3).collect() };
     // a sequence is a list of (stmt index, sep index); the last element may come from SEQ_LAST
     fn rec(
+        all_seps: bool,
         depth: usize,
         n: usize,
         cur: &mut Vec<(String, Dial, usize)>,
@@ -1052,14 +1074,17 @@ pub fn f_seq(n: usize, all_encl: bool) -> Vec<Case> {
         }
         for (s, d) in SEQ_STMTS {
             for sep in 0..SEQ_SEPS.len() {
+                if !all_seps && !matches!(sep, 0 | 1 | 3 | 4 | 6) {
+                    continue;
+                }
                 cur.push((s.to_string(), *d, sep));
-                rec(depth + 1, n, cur, out);
+                rec(all_seps, depth + 1, n, cur, out);
                 cur.pop();
             }
         }
     }
     let mut seqs = Vec::new();
-    rec(0, n, &mut Vec::new(), &mut seqs);
+    rec(all_encl, 0, n, &mut Vec::new(), &mut seqs);
     for (pre, post, is_loop) in encls {
         for seq in &seqs {
             // plain
@@ -1070,7 +1095,11 @@ pub fn f_seq(n: usize, all_encl: bool) -> Vec<Case> {
                     if (*ls == "break" || *ls == "continue") && !*is_loop {
                         continue;
                     }
-                    for sep in [0usize, 1, 3, 6] {
+                    let last_seps: &[usize] = if all_encl { &[0, 1, 3, 6] } else { &[0, 3] };
+                    if !all_encl && (*ls == "return" || *ls == "continue") {
+                        continue;
+                    }
+                    for &sep in last_seps {
                         let mut s2 = seq.clone();
                         s2.push((ls.to_string(), *ld, sep));
                         variants.push(s2);
